@@ -207,6 +207,8 @@ func checkC15(c *Ctx) {
 	c.Rule("R15.8", "Config.Build: the caller's options take effect after the configuration's (a caller's WithCaller / AddStacktrace / AddCallerSkip is not overridden by the annotations derived from the Config)", 1)
 	c10BuildOptionOrder(c, "R15.8")
 	c.Rule("R15.5", "whole stack: growth loop re-captures with the same skip while full; only the final frame is dropped", 3)
+	c.Rule("R15.9", "the slog handler's defaults are set before the options are applied; nothing is stored into the handler afterwards", 1)
+	c15DefaultsBeforeOptions(c, "R15.9")
 
 	zp := ZapPath
 	check := c.Method(zp, "Logger", "check")
